@@ -3,7 +3,6 @@ package mpb
 import (
 	"bytes"
 	"io"
-	"math"
 	"strings"
 
 	"github.com/vbauerster/mpb/v8/cwriter"
@@ -42,12 +41,18 @@ func vFrame(name string) vFrameSpec {
 	return f
 }
 
+var vRowBufs []*bytes.Buffer
+
 // vFeed plays the heap manager's ordered iteration: bars arrive with their frame already rendered.
 func vFeed(bars []*Bar, specs []vFrameSpec, iter chan *Bar) {
 	for i, b := range bars {
 		fr := &renderFrame{shutdown: specs[i].shutdown, noPop: specs[i].noPop, rmOnComplete: specs[i].rm}
 		for j := 0; j < specs[i].rows; j++ {
-			fr.rows = append(fr.rows, strings.NewReader(vMakeText(3+i, 1)))
+			// rows read from a buffer that outlives the frame, as the bar's own buffers do
+			rb := new(bytes.Buffer)
+			rb.WriteString(vMakeText(3+i, 1))
+			vRowBufs = append(vRowBufs, rb)
+			fr.rows = append(fr.rows, rb)
 		}
 		b.frameCh <- fr
 		iter <- b
@@ -59,11 +64,12 @@ func vFeed(bars []*Bar, specs []vFrameSpec, iter chan *Bar) {
 // of lines of this frame that must be redrawn (rows of bars not popped in this frame), and they fit the screen.
 func vC04Flush(n int, pop bool) {
 	vUnwind(8)
+	vRowBufs = nil
 	rec := &vTermRec{}
 	height := vInt("height")
 	vAssume(height >= 2 && height <= 8)
 	cw := cwriter.VNewTerm(rec, nil)
-	s := &pState{popCompleted: pop, hm: newHeapManager(16), queueBars: make(map[*Bar]*Bar), iterDrop: make(chan struct{}), popPriority: math.MinInt32}
+	s := &pState{popCompleted: pop, hm: newHeapManager(16), queueBars: make(map[*Bar]*Bar), iterDrop: make(chan struct{})}
 	bars := make([]*Bar, n)
 	specs := make([]vFrameSpec, n)
 	for i := 0; i < n; i++ {
@@ -118,6 +124,10 @@ func vC04Flush(n int, pop bool) {
 	}
 	// the cursor sits on the line after the last row: the redrawn lines must leave that line on screen
 	vAssert(redraw <= height-1, "C04.flush.redrawn-lines-fit-the-screen")
+	// every row of the frame has been consumed, shown or not: a bar's buffers are reused for its next frame
+	for _, rb := range vRowBufs {
+		vAssert(rb.Len() == 0, "C04.flush.rows-that-do-not-fit-are-discarded-not-kept-for-the-next-frame")
+	}
 	// bars handed back to the heap manager
 	back := 0
 	for len(s.hm.req) > 0 {
